@@ -573,6 +573,23 @@ func ZZSchedSend[C ~chan T | ~chan<- T, T any](ch C, v T) {
 	}
 }
 
+// ZZSchedSendFn is ZZSchedSend with the send itself supplied by the caller (try: non-blocking attempt, block: blocking send)
+func ZZSchedSendFn(try func() bool, block func(), unbuffered bool) {
+	ZZSchedPoint()
+	if !try() {
+		zzSchedMu.Lock()
+		if me, ok := zzSchedIDs[zzGoID()]; ok && zzSchedRunning == me {
+			zzSchedRunning = -1
+			zzSchedCond.Broadcast()
+		}
+		zzSchedMu.Unlock()
+		block()
+	}
+	if unbuffered {
+		ZZSchedPoint()
+	}
+}
+
 // ZZSchedPV is a scheduling point that passes its argument through (used to wrap receivers and channels).
 func ZZSchedPV[T any](v T) T {
 	ZZSchedPoint()
